@@ -57,7 +57,7 @@ Record cli := mk_cli { c_name : bytes; c_read : bool; c_send : bool; c_refuse_ch
 Record cstate := mk_cs {
   cs_reg : gmap N cli;              (* connected users (with an account) by ID *)
   cs_order : list N;                (* connected IDs ascending *)
-  cs_chats : gmap N (list N)        (* private chat -> member IDs ascending (NOT purged on disconnect) *)
+  cs_chats : gmap N (list N)        (* private chat -> member IDs ascending (purged on disconnect: LeaveAll) *)
 }.
 
 Fixpoint insert_sorted (x : N) (l : list N) : list N :=
@@ -138,6 +138,6 @@ Definition invite_new (s : cstate) (who target chat : N) : cstate * list chat_ev
   | Some t => (s', [if c_refuse_chat t then EvRefused who target else EvInvite target chat who])
   end.
 Definition disconnect (s : cstate) (who : N) : cstate :=
-  mk_cs (delete who (cs_reg s)) (remove_id who (cs_order s)) (cs_chats s).
+  mk_cs (delete who (cs_reg s)) (remove_id who (cs_order s)) (remove_id who <$> cs_chats s).
 Definition connect (s : cstate) (id : N) (c : cli) : cstate :=
   mk_cs (<[id := c]> (cs_reg s)) (insert_sorted id (cs_order s)) (cs_chats s).
